@@ -855,6 +855,57 @@ pub fn execute(sc: &RScenario, opts: &ExecOpts) -> RunReport {
     // ---- C08: action history ----------------------------------------------------------------
     check_c08(&mut j, grm, &act, value.as_ref(), ref_tree.as_ref(), ref_forest.as_ref(), walk_ok);
 
+    // ---- C05-b, differentially: the repaired input parsed from scratch by the real parser -------
+    // "The value ... [is] exactly [that] of parsing the input with the first sequence of each
+    // error applied": same action calls, same spans, same arguments (an inserted lexeme is
+    // `faulty` in the recovering parse and an ordinary zero-width lexeme in this one).
+    if !errors.is_empty() && value.is_some() && walk_ok && ref_tree.is_some() && opts.act_runner.is_none() {
+        let lx2 = StubLexer::from_lexemes(edited.iter().map(|e| Lx { start: e.start, len: e.len, faulty: false, tok_id: e.tok }).collect());
+        let (po, _) = real_parse_actions(b, &lx2, &prep.costs, sc.hash_seed, &ClockPolicy { tick_ns: 1, jumps: vec![] }, RecoveryKind::None);
+        match po {
+            SimOutcome::Panic(msg) => j.viol("C05", "C05-b-plain-parse-of-repaired-input", format!("parsing the repaired input panicked: {msg}")),
+            SimOutcome::Ok(pr) => {
+                j.rep.probes.hit("repaired_inputs_parsed_from_scratch");
+                if !pr.errors.is_empty() || pr.value.is_none() {
+                    if j.p1 {
+                        j.viol("C05", "C05-b-plain-parse-of-repaired-input", format!("the repaired input does not parse without error: {:?}", pr.errors.first().map(|e| e.lexeme)));
+                    } else {
+                        // continuing at the error configuration and starting from scratch can differ
+                        // on an automaton with a conflict-resolved cell (reductions made under the
+                        // erroneous lookahead precede the repair): counted, not judged
+                        j.rep.probes.hit("p2_from_scratch_parse_differs");
+                    }
+                } else {
+                    let same = pr.recs.len() == act.recs.len()
+                        && pr.recs.iter().zip(&act.recs).all(|(a, b2)| {
+                            a.pidx == b2.pidx
+                                && a.span == b2.span
+                                && a.args.len() == b2.args.len()
+                                && a.args.iter().zip(&b2.args).all(|(x, y)| match (x, y) {
+                                    (Arg::Val(p), Arg::Val(q)) => p == q,
+                                    (Arg::Lex(p), Arg::Lex(q)) => p.start == q.start && p.len == q.len && p.tok_id == q.tok_id,
+                                    _ => false,
+                                })
+                        });
+                    // same reductions in the same order? (on an automaton with a conflict-resolved
+                    // cell the two parses may legitimately differ in *which* reductions happen)
+                    let same_parse = pr.recs.len() == act.recs.len() && pr.recs.iter().zip(&act.recs).all(|(a, b2)| a.pidx == b2.pidx);
+                    if !same && !same_parse && !j.p1 {
+                        j.rep.probes.hit("p2_from_scratch_parse_differs");
+                    }
+                    if !same && (j.p1 || same_parse) {
+                        let first = pr.recs.iter().zip(&act.recs).position(|(a, b2)| a.pidx != b2.pidx || a.span != b2.span).unwrap_or(0);
+                        j.viol(
+                            "C05",
+                            "C05-b-value-differs-from-plain-parse",
+                            format!("action call {first}: recovering parse {:?}, plain parse of the repaired input {:?} ({} vs {} calls)", act.recs.get(first).map(|r| (r.pidx, r.span)), pr.recs.get(first).map(|r| (r.pidx, r.span)), act.recs.len(), pr.recs.len()),
+                        );
+                    }
+                }
+            }
+        }
+    }
+
     // ---- the same input without error recovery (C07 c/d/e, C08 on the prefix) -----------------
     if !errors.is_empty() && sc.clock.jumps.is_empty() && sc.hash_seed % 3 == 0 && opts.act_runner.is_none() {
         let (no, _) = real_parse_actions(b, &lexer, &prep.costs, sc.hash_seed, &sc.clock, RecoveryKind::None);
